@@ -186,6 +186,11 @@ func (s *Server) serve(ctx context.Context, listener net.Listener, handler Modbu
 			onErrorFunc:    onErrorFunc,
 		}
 		s.trackConn(c, true)
+		if s.isShutdown.Load() {
+			// Shutdown has run (it holds the same mutex as trackConn) while this connection was being accepted and could
+			// not see it. Close it here; connection goroutine ends at its first read and does the usual cleanup.
+			_ = netConn.Close()
+		}
 		go func(ctx context.Context, conn *connection) {
 			defer func() {
 				if rec := recover(); rec != nil {
